@@ -1,7 +1,7 @@
 // C05 correspondence harness: MDS / Kernel PCA / Isomap(k = N-1) through the PUBLIC API, with the
 // eigen-observer hook capturing the exact matrix handed to the eigensolver and the (V, lambda) it returned.
 // in : mds method=mds|kpca|isomap N=4 d=2 solver=dense|rand in=dist|kern|pts seed=3 data=r;r;...
-// out: ok pre=<NxN> V=<Nxd> lam=<d> sq=<d> Y=<Nxd>       (numbers as exact dyadics)   |  throw:<class>
+// out: ok pre=<NxN> V=<Nxd> lam=<d> Y=<Nxd>       (numbers as exact dyadics)   |  throw:<class>
 #include "vspectral.hpp"
 
 using namespace tapkee;
@@ -41,12 +41,9 @@ static std::string run_case(std::map<std::string, std::string>& f)
         out = tapkee::with(params).withDistance(dcb).embedUsing(idx);
     }
     const vs::Observed& o = vs::observed();
-    DenseVector sq(o.values.size());
-    for (IndexType i = 0; i < sq.size(); ++i)
-        sq(i) = sqrt(o.values(i));
     std::ostringstream s;
     s << "ok calls=" << o.calls << " pre=" << vs::mat(o.lhs) << " V=" << vs::mat(o.vectors) << " lam=" << vs::vec(o.values)
-      << " sq=" << vs::vec(sq) << " Y=" << vs::mat(out.embedding);
+      << " Y=" << vs::mat(out.embedding);
     return s.str();
 }
 
